@@ -44,6 +44,9 @@ impl Engine for C12 {
         let dir = sb.fresh("c12");
         let cfg = CgrCfg::from_params(&case.params);
         let out_path = dir.join("out.cgr");
+        if stale_output(&out_path, case.params.get("stale").and_then(|v| v.as_u64()).unwrap_or(0)) {
+            out.probe("stale_output_file", 1);
+        }
         let (r, ro) = run_cgr(
             &dir,
             "in",
@@ -181,7 +184,7 @@ impl Engine for C12 {
     }
 
     fn required_probes(&self) -> Vec<&'static str> {
-        vec!["batches>=3", "raw_counts", "record_without_window"]
+        vec!["stale_output_file", "batches>=3", "raw_counts", "record_without_window"]
     }
 
     fn real_components(&self) -> Vec<&'static str> {
